@@ -808,7 +808,7 @@ def main(tier):
 
     # ---- model vs implementation inside Coq ---------------------------------------------------------------
     model_idx = []
-    if not tfails and res['ok']:
+    if res['ok']:        # after a translation failure the model still carries the literals last translated: a disagreement locates the change
         mc = comparable if tier == 'thorough' else comparable[:3000]
         bad, model_idx, err = model_check(mc)
         ob = 'model_vs_impl(C05.Model.parse, parsers.parse_generic_csv)'
